@@ -1130,6 +1130,11 @@ int timerfd_settime(int fd, int flags, const struct itimerspec* n, struct itimer
   return 0;
 }
 int vrt_timer_fd(void) { return g_timer_efd; }
+void vrt_tick64(uint64_t n) {
+  if (g_timer_efd >= 0) syscall(SYS_write, g_timer_efd, &n, sizeof n);
+  g_epoch++;
+  g_qepoch++;
+}
 void vrt_tick(unsigned n) {
   uint64_t v = n;
   if (g_timer_efd >= 0) syscall(SYS_write, g_timer_efd, &v, sizeof v);
